@@ -3,6 +3,7 @@ import random
 
 import common
 import graphs
+import c05_readers
 from e2e import canon, concat_parts, try_, _short
 
 
@@ -115,7 +116,12 @@ def run(run):
     ]
     run.rule = ("each workload graph executed under random / reverse-priority / LIFO / FIFO topological orders by the harness's own sequential executor (with argument fingerprints before/after every task), "
                 "under the threaded scheduler with 1,2,4,8,16 threads, and twice more for repeatability; results compared (row order ignored inside disk-shuffled partitions); "
-                "source pandas objects fingerprinted before/after; non-trivial = graph with a key that has >= 2 consumers")
+                "source pandas objects fingerprinted before/after; non-trivial = graph with a key that has >= 2 consumers; "
+                "file readers with user option objects (read_parquet pyarrow-filesystem / fsspec readers x arrow_to_pandas types_mapper / ignore_metadata / to_pandas flags / dtype_backend / columns / filters / index, "
+                "read_csv dtype / converters / na_values, from_map args) x datasets of 1..5 files with and without nulls and integers > 2**53 x queries x histories (fresh, computed before, one partition / head first, "
+                "parent or sibling collection from the same option objects computed, threads first): every partition under adversarial orders (each output's sub-graph first), reverse, LIFO, random, "
+                "compared dtype-exactly with the same query built from copies of the options and executed with private copies of every task input; compute() twice + threaded + vs a fresh collection; "
+                "the user's option objects fingerprinted before/after (harness/c05_readers.py)")
     run.proofs("PropC05.v")
     quick = run.tier == "quick"
     K = 4 if quick else 12
@@ -177,3 +183,4 @@ def run(run):
         if n == 3:
             run.sample({"workload": tag[:200], "keys": info["nkeys"], "policies": policies})
     run.section("schedules", workloads=n, with_shared_keys=shared_graphs, orders_per_workload=4 + K)
+    c05_readers.run_family(run, rt)
